@@ -111,6 +111,13 @@ TEXT["C09"] = {
     "design_ref": "DESIGN.md section 3, C09",
 }
 
+TEXT["C13"] = {
+    "technique": "property-based testing (rapid) + enumeration of small call graphs; differential against a reference interpreter and between the local / imported / aliased forms; crash detection through a write-ahead journal",
+    "text": "Macro signatures (0-4 parameters, any subset with defaults) and call sites (0-5 arguments of several kinds, strings needing escaping) are rendered in three forms - defined locally, imported, imported under an alias - that must agree with each other and with a reference interpreter (positional binding, defaults evaluated in the defining scope, omitted parameters shadow outer names, too many arguments = error, escaping exactly once). Call graphs over 1-3 macros without a base case (direct, mutual, branching; via body, default expression or argument; local / imported / mixed) must end in an execution error with the process alive; the same graphs with a counter terminate and must match the reference. All graphs with out-degree 1 over <= 2 (quick) / 3 (thorough) macros are enumerated.",
+    "note": "Trusted: the reference interpreter in harness/props/mm_test.go; the driver's journal/confirmation logic for process deaths.",
+    "design_ref": "DESIGN.md section 3, C13",
+}
+
 PENDING_REASON = "check not built yet in this build phase (DESIGN.md section 3 describes the planned PBT check); will be claimed once its quick tier is silent on the unchanged tree and kills its mutants"
 
 
